@@ -137,11 +137,34 @@ pub struct Chans {
 
 fn take_n(mut it: Box<dyn Iterator<Item = String> + Send>, n: u32) -> Vec<String> {
     let mut v = Vec::new();
+    // long streams are rendered as their first 16 intervals, a digest of everything and the last 4
+    let mut digest = simcore::Fp::default();
+    let mut tail: std::collections::VecDeque<String> = std::collections::VecDeque::new();
+    let mut count = 0u32;
     for _ in 0..n {
         match it.next() {
-            Some(s) => v.push(s),
+            Some(s) => {
+                count += 1;
+                if n > 2000 {
+                    digest.str(&s);
+                    if v.len() < 16 {
+                        v.push(s);
+                    } else {
+                        tail.push_back(s);
+                        if tail.len() > 4 {
+                            tail.pop_front();
+                        }
+                    }
+                } else {
+                    v.push(s);
+                }
+            }
             None => break,
         }
+    }
+    if n > 2000 {
+        v.push(format!("...[{count} intervals, digest {:016x}]...", digest.0));
+        v.extend(tail);
     }
     v
 }
